@@ -12,7 +12,134 @@ import (
 
 type Locker = stdsync.Locker
 type Cond = stdsync.Cond
-type Map = stdsync.Map
+// Map wraps the real sync.Map: every operation is a yield point (so that the window
+// between a Load and a later Store of a check-then-act sequence can be entered, as
+// at the atomic seam), the real map gives the race detector the real Store -> Load
+// edges, and Range visits the keys in an order the simulator owns (order of first
+// insertion, permuted by the map-order stream of the tape like any ranged Go map)
+// instead of the runtime's random one.
+type Map struct {
+	m     stdsync.Map
+	mu    stdsync.Mutex // guards order; only taken with the race detector blinded, so it adds no happens-before edge
+	order []any
+}
+
+//go:norace
+func (m *Map) note(k any) {
+	raceOff()
+	m.mu.Lock()
+	found := false
+	for i := 0; i < len(m.order); i++ {
+		if m.order[i] == k {
+			found = true
+			break
+		}
+	}
+	if !found {
+		m.order = append(m.order, k)
+	}
+	m.mu.Unlock()
+	raceOn()
+}
+
+//go:norace
+func (m *Map) forget(k any) {
+	raceOff()
+	m.mu.Lock()
+	for i := 0; i < len(m.order); i++ {
+		if m.order[i] == k {
+			for j := i; j+1 < len(m.order); j++ {
+				m.order[j] = m.order[j+1]
+			}
+			m.order[len(m.order)-1] = nil
+			m.order = m.order[:len(m.order)-1]
+			break
+		}
+	}
+	m.mu.Unlock()
+	raceOn()
+}
+
+//go:norace
+func (m *Map) snapshot() []any {
+	raceOff()
+	m.mu.Lock()
+	kk := make([]any, len(m.order))
+	for i := 0; i < len(m.order); i++ {
+		kk[i] = m.order[i]
+	}
+	m.mu.Unlock()
+	raceOn()
+	return kk
+}
+
+func (m *Map) Load(key any) (any, bool) { Yield(YAtomic, 0); return m.m.Load(key) }
+func (m *Map) Store(key, value any)     { Yield(YAtomic, 0); m.note(key); m.m.Store(key, value) }
+func (m *Map) Clear() {
+	Yield(YAtomic, 0)
+	for _, k := range m.snapshot() {
+		m.forget(k)
+	}
+	m.m.Range(func(k, _ any) bool { m.m.Delete(k); return true })
+}
+func (m *Map) LoadOrStore(key, value any) (any, bool) {
+	Yield(YAtomic, 0)
+	m.note(key)
+	return m.m.LoadOrStore(key, value)
+}
+func (m *Map) LoadAndDelete(key any) (any, bool) {
+	Yield(YAtomic, 0)
+	v, ok := m.m.LoadAndDelete(key)
+	m.forget(key)
+	return v, ok
+}
+func (m *Map) Delete(key any) { Yield(YAtomic, 0); m.m.Delete(key); m.forget(key) }
+func (m *Map) Swap(key, value any) (any, bool) {
+	Yield(YAtomic, 0)
+	m.note(key)
+	return m.m.Swap(key, value)
+}
+func (m *Map) CompareAndSwap(key, old, new any) bool {
+	Yield(YAtomic, 0)
+	return m.m.CompareAndSwap(key, old, new)
+}
+func (m *Map) CompareAndDelete(key, old any) bool {
+	Yield(YAtomic, 0)
+	ok := m.m.CompareAndDelete(key, old)
+	if ok {
+		m.forget(key)
+	}
+	return ok
+}
+
+// Range: snapshot of the keys (entries stored during the iteration are not
+// visited, one of the behaviours sync.Map allows), in the simulator's order.
+func (m *Map) Range(f func(key, value any) bool) {
+	Yield(YAtomic, 0)
+	kk := m.snapshot()
+	moved := false
+	if len(kk) >= 2 && permActive() {
+		for i := len(kk) - 1; i > 0; i-- {
+			j := i - mapChoice(i+1)
+			if j != i {
+				kk[i], kk[j] = kk[j], kk[i]
+				moved = true
+			}
+		}
+	}
+	if len(kk) >= 2 {
+		noteRange(moved)
+	}
+	for _, k := range kk {
+		v, ok := m.m.Load(k)
+		if !ok {
+			continue
+		}
+		if !f(k, v) {
+			return
+		}
+	}
+}
 
 func NewCond(l Locker) *Cond { return stdsync.NewCond(l) }
 
